@@ -35,8 +35,8 @@ ASSUMPTIONS = [
     "integral = sum over voxels of data * prod(dimensions / shape), per time step and component",
 ]
 FLOORS = {
-    "quick": {"resize_conserves": 500, "resize_object_reused": 150, "refine_coarsen_identity": 100, "coarsen_conserves": 100, "axis_reduction": 400, "extrusion": 60, "superpose": 150},
-    "thorough": {"resize_conserves": 6000, "resize_object_reused": 1500, "refine_coarsen_identity": 1200, "coarsen_conserves": 1200, "axis_reduction": 5000, "extrusion": 700, "superpose": 1800},
+    "quick": {"resize_conserves": 500, "resize_object_reused": 150, "resize_options_with_key_prefix": 120, "refine_coarsen_identity": 100, "coarsen_conserves": 100, "axis_reduction": 400, "extrusion": 60, "superpose": 150},
+    "thorough": {"resize_conserves": 6000, "resize_object_reused": 1500, "resize_options_with_key_prefix": 1200, "refine_coarsen_identity": 1200, "coarsen_conserves": 1200, "axis_reduction": 5000, "extrusion": 700, "superpose": 1800},
 }
 
 
@@ -109,7 +109,18 @@ def run_shard(spec, R):
             if use_fn:
                 ok, out = R.guarded("resize", lambda: darsia.resize(arg, shape=tshape, interpolation="inter_area"))
             else:
-                ok, rz = R.guarded("resize", lambda: darsia.Resize(shape=tshape, interpolation="inter_area", **kw))
+                # the options are given directly, or all through the keyword dictionary with a key prefix (as the
+                # preprocessing of other tools does, e.g. key="emd ")
+                prefix = ["", "", "emd ", "pre "][int(rng.integers(0, 4))]
+                case["options_prefix"] = prefix
+                if prefix:
+                    opts = {prefix + "resize shape": tshape, prefix + "resize interpolation": "inter_area"}
+                    if conservative:
+                        opts[prefix + "resize conservative"] = True
+                    R.count("resize_options_with_key_prefix")
+                    ok, rz = R.guarded("resize", lambda: darsia.Resize(key=prefix, **opts))
+                else:
+                    ok, rz = R.guarded("resize", lambda: darsia.Resize(shape=tshape, interpolation="inter_area", **kw))
                 if ok and rng.random() < 0.6:
                     # the resize object has a history: it served an input of another shape before (pure down-sampling
                     # from an integer multiple of the target); that earlier call is judged as well
